@@ -87,6 +87,9 @@ def more_skeletons():
     return S_
 
 
+RULE_FLAGS = ("and-only", "or-only", "or-then-and")
+
+
 def needs(spec, present=None):
     """the statement's 'needed' predicate, from the skeleton (never from fuzzylite).  Whether an output needs an aggregation
     operator / its rules an implication depends on its defuzzifier being an integral one, which can only be said when the
@@ -141,6 +144,11 @@ def ob_skeleton(name, spec, label):
         ins = {f"x_{v}": X[v] for v in names_in}
         ins.update({f"has_{c[0]}{c[1]}_{c[2]}": SymBool(flags[c]) for c in comps})
         pre = []
+        # rules may be disabled (symbolic flag per rule, small skeletons only): a disabled rule is still loaded, its antecedent is still
+        # evaluated by the activation method, so the operators it uses are still needed
+        rule_ids = [(bi, ri) for bi, rb in enumerate(spec["blocks"]) for ri in range(len(rb["rules"]))] if name in RULE_FLAGS else []
+        rflags = {rid: z3.Bool(f"rule{rid[0]}_{rid[1]}_enabled") for rid in rule_ids}
+        ins.update({f"rule{rid[0]}_{rid[1]}_enabled": SymBool(rflags[rid]) for rid in rule_ids})
 
         def rbody(v):
             present = {c: bool(v[f"has_{c[0]}{c[1]}_{c[2]}"]) for c in comps}
@@ -148,6 +156,7 @@ def ob_skeleton(name, spec, label):
             need = needs(spec, present)
             return "\n".join([regeng.PY_BUILD, f"spec = {regeng.spec_literal(sp, lit, lambda x: x)}", "e = build_engine(spec)",
                               "globals()['EXPECT_NO_EXCEPTION'] = False", "import warnings; warnings.simplefilter('ignore')",
+                              "for (bi, ri), en in {" + ", ".join(f"({bi}, {ri}): {bool(v[f'rule{bi}_{ri}_enabled'])!r}" for (bi, ri) in rule_ids) + "}.items(): e.rule_blocks[bi].rules[ri].enabled = en",
                               "errors = []; ready = e.is_ready(errors)",
                               f"missing_needed = {[c[2] for c in need if not present[c]]!r}",
                               "if missing_needed and ready: bad_report = 'needed but missing %r, yet is_ready() reports no errors' % (missing_needed,)",
@@ -165,6 +174,8 @@ def ob_skeleton(name, spec, label):
         def body():
             present = {c: bool(SymBool(flags[c])) for c in comps}
             e = build(with_presence(spec, present))
+            for (bi, ri) in rule_ids:
+                e.rule_blocks[bi].rules[ri].enabled = bool(SymBool(rflags[(bi, ri)]))
             errors = []
             ready = e.is_ready(errors)
             for v, x in X.items():
